@@ -107,6 +107,10 @@ var loadSets = []map[string]string{
 	{"main.p": "use(\"lib.p\")\nprobe(\"m\", v)", "lib.p": "add_key(v, \"one\")"},
 	{"main.p": "use(\"lib.p\")\nprobe(\"m\", v)", "lib.p": "add_key(v, \"two\")\nprobe(\"lib\", 2)"},
 	{"main.p": "use(\"lib.p\")\nprobe(\"m\", v)", "lib.p": "add_key(v, 3)\nuse(\"deep.p\")", "deep.p": "add_key(d, true)"},
+	// one pattern, captures of different types
+	{"main.p": "ok = grok(_, \"%{WORD:w} %{INT:n}\")\nprobe(\"g\", ok, w, n)"},
+	{"main.p": "ok = grok(_, \"%{WORD:w} %{INT:n:int}\")\nprobe(\"g\", ok, w, n)"},
+	{"main.p": "ok = grok(_, \"%{WORD:w} %{INT:n:float}\")\nprobe(\"g\", ok, w, n)"},
 	// a callee that fails the check with an error of three positions, used by several scripts
 	{"main.p": "use(\"u1.p\")", "bad.p": "add_key(n, len(load_json()))", "u1.p": "use(\"bad.p\")", "u2.p": "x = 1\nuse(\"bad.p\")", "u3.p": "if true {\n use(\"bad.p\")\n}", "u4.p": "use(\"u3.p\")"},
 }
@@ -236,7 +240,8 @@ func genScenario(t *rapid.T) (*scenario, bool) {
 				j.Text = fmt.Sprintf("x = %s\ny = [%s, %s, %s]\n%s x == %s {\n  z = 1\n} %s y {\n  z = 2\n} %s {\n  z = 3\n}\n%s e %s y {\n  %s z { %s }\n  %s\n}\n",
 					kw("true"), kw("false"), kw("nil"), kw("null"), kw("if"), kw("true"), kw("elif"), kw("else"), kw("for"), kw("in"), kw("if"), kw("break"), kw("continue"))
 			} else if rapid.Bool().Draw(t, "badsrc") {
-				j.Text = rapid.SampledFrom([]string{"x = = 1", "-0x", "a[", "\"\\q\"", "for a in 1e {}", "if a {"}).Draw(t, "bad")
+				// rejected texts, among them texts whose offending token is a back-quoted name, a triple-quoted or an ordinary string
+				j.Text = rapid.SampledFrom([]string{"x = = 1", "-0x", "a[", "\"\\q\"", "for a in 1e {}", "if a {", "a = 1 `x`", "a = 1 '''x'''", "f(1 `q`)", "a = 1 \"\"\"m\"\"\"", "b `if`", "x = \"a\" \"b\"", "a = 1 `x`", "a = 1 '''x'''"}).Draw(t, "bad")
 			} else {
 				g := sgen.New(t)
 				g.Loops, g.Slices = true, true
